@@ -346,12 +346,11 @@ impl Source for SimSource {
         }
     }
     fn configure_hot_reloading(&self, events: EventSender) -> Result<(), BoxedError> {
+        // the sender is kept in every mode: a source whose set-up fails half-way may well go on sending
+        *self.0.sender.lock().unwrap() = Some(events);
         match self.0.mode {
             HotMode::ConfigureFails => Err("simulated failure to start the watcher".into()),
-            _ => {
-                *self.0.sender.lock().unwrap() = Some(events);
-                Ok(())
-            }
+            _ => Ok(()),
         }
     }
 }
